@@ -18,7 +18,7 @@ def run(pid, tier, seed):
     exe = vlib.build_harness("strings", ["strings.cxx"])
     exe_asan = vlib.build_harness("strings", ["strings.cxx"], cfg="asan")
     q = tier == "quick"
-    tdir = os.path.join(vlib.BUILD, "traces")
+    tdir = vlib.trace_dir()
     os.makedirs(tdir, exist_ok=True)
 
     def gen():
